@@ -78,6 +78,7 @@ type Engine struct {
 	callRes      map[string][]Value
 	callArgs     map[string][][]Value // results of contract calls by callee name (spec: res(Callee_Name, i))
 	dynType      map[string]types.Type
+	ncalledDirty map[string]bool // call counters changed inside a cut loop: unknown afterwards
 	importAll    bool // refinement checks see every offer of the implementation
 	arrayMode    bool
 	usedNilChan  bool
